@@ -110,3 +110,97 @@ Example copy_after_grow_is_wrong :
   cell0 (run_acts true 1 0 1 0 (2 ^ 64 + 1) 2 1 [Some ANop; Some ACopyItem; Some AGrowIf; Some AInsertCopy] items 1 false) = Some 7 /\
   cell0 (run_acts true 1 0 1 0 (2 ^ 64 + 1) 2 1 [Some ANop; Some AGrowIf; Some ACopyItem; Some AInsertCopy] items 1 false) = Some poison.
 Proof. vm_compute. split; reflexivity. Qed.
+
+(* ================================================================== Array::AddBack(const Item&) from the AST facts *)
+(* statements of pvAddBackNogrow(creator) and pvAddBackGrow(const Item&, true_type); Relocate is a cell MOVE: it constructs the destination
+   cell from the source cell (like the shifter's cells) *)
+Inductive bact := BNop | BCopyToTmp | BGrow | BRelocTmpToEnd | BSetCountPlus1 | BCreateAtEnd.
+Definition bact_of (s : string) : option bact :=
+  if String.eqb s "decl initCount = GetCount()" then Some BNop
+  else if String.eqb s "decl newCount = (initCount + 1)" then Some BNop
+  else if String.eqb s "decl itemBuffer = ctor{}" then Some BNop
+  else if String.eqb s "decl memManager = GetMemManager()" then Some BNop
+  else if String.eqb s "decl count = GetCount()" then Some BNop
+  else if String.eqb s "operator()(ctor{memManager, item}, operator&(itemBuffer))" then Some BCopyToTmp
+  else if String.eqb s "try { pvGrow(newCount, add) }" then Some BGrow
+  else if String.eqb s "Relocate(memManager, operator&(itemBuffer), (GetItems() + initCount), 1)" then Some BRelocTmpToEnd
+  else if String.eqb s "SetCount(newCount)" then Some BSetCountPlus1
+  else if String.eqb s "SetCount((count + 1))" then Some BSetCountPlus1
+  else if String.eqb s "operator()(creator, (GetItems() + count))" then Some BCreateAtEnd
+  else None.
+
+Section RunB.
+Variable growOnReserve : bool.
+Variables cnt0 it tmp : Z.              (* count at entry, the item's cell, the itemBuffer cell *)
+Definition aliasedB : bool := Z.leb 0 it && Z.ltb it cnt0.
+Fixpoint run_bacts (l : list (option bact)) (items : Z -> Z) (cnt cap_ : Z) (grown : bool) : outcome ((Z -> Z) * Z * Z) :=
+  match l with
+  | [] => Ok (items, cnt, cap_)
+  | None :: _ => Stuck
+  | Some a :: t =>
+    match a with
+    | BNop => run_bacts t items cnt cap_ grown
+    | BCopyToTmp => run_bacts t (upd items tmp (if grown && aliasedB then poison else items it)) cnt cap_ grown
+    | BGrow => match GrowCapacity growOnReserve cap_ (cnt0 + 1) 0 false with
+               | Ok cap' => run_bacts t items cnt cap' true
+               | Stuck => Stuck | Fuel => Fuel | Exn => Exn
+               end
+    | BRelocTmpToEnd => if Z.ltb cnt0 cap_ then run_bacts t (upd items cnt0 (items tmp)) cnt cap_ grown else Stuck
+    | BCreateAtEnd => if Z.ltb cnt0 cap_ then run_bacts t (upd items cnt0 (if grown && aliasedB then poison else items it)) cnt cap_ grown else Stuck
+    | BSetCountPlus1 => if Z.leb (cnt0 + 1) cap_ then run_bacts t items (cnt0 + 1) cap_ grown else Stuck   (* Data::SetCount: MOMO_ASSERT(count <= GetCapacity()) *)
+    end
+  end.
+End RunB.
+
+(* AddBack(const Item& item): if (GetCount() < GetCapacity()) pvAddBackNogrow(Creator(item)) else pvAddBackGrow(item)   [nothrow-relocatable items] *)
+Definition gen_add_back_f (growOnReserve : bool) (items : Z -> Z) (cnt cap_ it tmp : Z) : outcome ((Z -> Z) * Z * Z) :=
+  if Z.ltb cnt cap_
+  then run_bacts growOnReserve cnt it tmp (map bact_of add_back_nogrow_stmts) items cnt cap_ false
+  else run_bacts growOnReserve cnt it tmp (map bact_of add_back_grow_copy_stmts) items cnt cap_ false.
+
+Lemma facts_shape_add_back :
+  add_back_copy_stmts = ["if (GetCount() < GetCapacity()) { pvAddBackNogrow(ctor{GetMemManager(), item}) } else { pvAddBackGrow(item) }"]%string /\
+  map bact_of add_back_nogrow_stmts = [Some BNop; Some BCreateAtEnd; Some BSetCountPlus1] /\
+  map bact_of add_back_grow_copy_stmts =
+    [Some BNop; Some BNop; Some BNop; Some BNop; Some BCopyToTmp; Some BGrow; Some BRelocTmpToEnd; Some BSetCountPlus1].
+Proof. repeat split; reflexivity. Qed.
+
+(* item = ANY element of the array or an external object; with or without reallocation: the appended cell holds the item's PRE-CALL value,
+   the old cells are untouched, count + 1 <= the new capacity *)
+Theorem gen_add_back_f_spec (growOnReserve : bool) (items : Z -> Z) cnt cap_ it tmp :
+  0 <= cnt -> cnt <= cap_ -> cnt + 1 < U64 -> U64 <= tmp -> (0 <= it < cnt \/ U64 <= it) ->
+  exists items' cap', gen_add_back_f growOnReserve items cnt cap_ it tmp = Ok (items', cnt + 1, cap') /\
+    cnt + 1 <= cap' /\ items' cnt = items it /\ (forall j, 0 <= j < cnt -> items' j = items j).
+Proof.
+  intros H0 Hc HU Htmp Hit. unfold gen_add_back_f. destruct facts_shape_add_back as (_ & -> & ->).
+  destruct (Z.ltb_spec cnt cap_) as [Hroom|Hfull].
+  - simpl. destruct (Z.ltb_spec cnt cap_); [|lia]. destruct (Z.leb_spec (cnt + 1) cap_); [|lia].
+    eexists; eexists; split; [reflexivity|]. split; [lia|]. unfold upd. split.
+    + rewrite Z.eqb_refl. reflexivity.
+    + intros j Hj. destruct (Z.eqb_spec j cnt); [lia|reflexivity].
+  - assert (cap_ = cnt) by lia. subst cap_. simpl.
+    destruct (GrowProofs.grow_capacity_ge growOnReserve cnt (cnt + 1) 0 false) as (r & -> & Hr1 & Hr2); try (unfold U64 in *; lia).
+    destruct (Z.ltb_spec cnt r); [|lia]. destruct (Z.leb_spec (cnt + 1) r); [|lia].
+    eexists; eexists; split; [reflexivity|]. split; [lia|]. unfold upd. split.
+    + rewrite Z.eqb_refl. rewrite Z.eqb_refl. reflexivity.
+    + intros j Hj. destruct (Z.eqb_spec j cnt); [lia|]. destruct (Z.eqb_spec j tmp); [unfold U64 in *; lia|reflexivity].
+Qed.
+
+(* the remaining facts: Shrink / Reserve of Array and the forwards of momo::stdish::vector *)
+Lemma facts_shape_forwards :
+  array_reserve_stmts = ["if (capacity > GetCapacity()) { pvGrow(capacity, reserve) }"]%string /\
+  array_shrink_stmts = ["decl initCapacity = GetCapacity()"; "if ((initCapacity <= capacity) || (initCapacity == internalCapacity)) { return }";
+                        "decl count = GetCount()"; "if (capacity < count) { (capacity = count) }";
+                        "if !Reallocate(capacity, capacity) { decl itemsCreator = LambdaExpr; Reset(capacity, count, itemsCreator) }"]%string /\
+  (* stdish::vector: insert(where, ...) forwards to Array::Insert(where - cbegin(), ...), erase(first, last) to Remove(first - cbegin(), last - first), ... *)
+  vector_insert_n = ["decl index = Dist(cbegin(), where)"; "Insert(index, count, value)"; "return Next(begin(), index)"]%string /\
+  vector_insert_copy = ["decl index = Dist(cbegin(), where)"; "Insert(index, value)"; "return Next(begin(), index)"]%string /\
+  vector_insert_move = ["decl index = Dist(cbegin(), where)"; "Insert(index, move(value))"; "return Next(begin(), index)"]%string /\
+  vector_erase_range = ["decl index = Dist(cbegin(), first)"; "Remove(index, Dist(first, last))"; "return Next(begin(), index)"]%string /\
+  vector_erase_one = ["return erase(where, (where + 1))"]%string /\
+  vector_push_back_copy = ["AddBack(value)"]%string /\ vector_push_back_move = ["AddBack(move(value))"]%string /\
+  vector_resize_value = ["SetCount(size, value)"]%string /\ vector_resize = ["SetCount(size)"]%string /\
+  vector_assign_n = ["operator=(mArray, ctor{count, value, ctor{get_allocator()}})"]%string /\
+  vector_reserve = ["Reserve(count)"]%string /\ vector_shrink_to_fit = ["Shrink()"]%string /\
+  vector_clear = ["Clear(CXXDefaultArgExpr)"]%string /\ vector_pop_back = ["RemoveBack(CXXDefaultArgExpr)"]%string.
+Proof. repeat split; reflexivity. Qed.
